@@ -183,7 +183,7 @@ Definition agree_kind (k : kind) : bool :=
       (* the tape is consistent: after the sweep the model holds exactly the factors the implementation returned *)
       forallb (fun k => nat_list_eqb (shape (nth k (fst res) (mk [] []))) (shape (nth k fs1 (mk [] []))) &&
                         q_list_eqb (map toQ (data (nth k (fst res) (mk [] [])))) (map toQ (data (nth k fs1 (mk [] []))))) (seq 0 (length fs1))
-      && rel_close (parafac_iteration_error Op solve X R w ms fs0) rep
+      && rel_close (parafac_iteration_error Op solve X R w None ms fs0) rep
   | KHooiHyp X G fs =>
       let s := shape X in let rs := shape G in let us := matsT Op fs in
       Nat.eqb (length fs) (length s) && Nat.eqb (length rs) (length s) &&
